@@ -135,14 +135,15 @@ void doc_corrupt(std::vector<unsigned char> &b, Rng &r, const Layout *lay) {
         case 3: { size_t n = std::min(b.size() - pos, (size_t) r.range(1, 60)); std::vector<unsigned char> seg(b.begin() + (long) pos, b.begin() + (long) (pos + n)); b.insert(b.begin() + (long) pos, seg.begin(), seg.end()); g_stats.inc("fault.corrupt.duplicate"); break; }
         case 4: { size_t from = (size_t) r.below(b.size()); size_t n = std::min(b.size() - from, (size_t) r.range(1, 60)); std::vector<unsigned char> seg(b.begin() + (long) from, b.begin() + (long) (from + n)); b.insert(b.begin() + (long) pos, seg.begin(), seg.end()); g_stats.inc("fault.corrupt.splice"); break; }
         case 5: b.resize(pos); g_stats.inc("fault.corrupt.cut"); break;
-        default: { static const char *const T[] = { "data_", "save_", "loop_", "stop_", "global_", "\n;", "'''", "\"\"\"", "\r\n", "\r", "\xef\xbb\xbf", "\xed\xa0\x80", "#\\#CIF_2.0", "_x", " ? ", "{'k':", "[[" }; const char *t = T[r.below(sizeof T / sizeof T[0])]; b.insert(b.begin() + (long) pos, (const unsigned char *) t, (const unsigned char *) t + strlen(t)); g_stats.inc("fault.corrupt.insert_token"); break; }
+        default: { static const char *const T[] = { "data_", "save_", "loop_", "stop_", "global_", "\n;", "'''", "\"\"\"", "\r\n", "\r", "\xef\xbb\xbf", "\xed\xa0\x80", "#\\#CIF_2.0", "_x", " ? ", "{'k':", "[[", "\xc2\x85", "\xc2\x9f", "\x0c", "\x0b" }; const char *t = T[r.below(sizeof T / sizeof T[0])]; b.insert(b.begin() + (long) pos, (const unsigned char *) t, (const unsigned char *) t + strlen(t)); g_stats.inc("fault.corrupt.insert_token"); break; }
     }
 }
 static void gen_opts(ParseOpts &o, Rng &r) {
     static const int CIF2[] = { -1, 0, 0, 0, 1, 19, 20 }; o.prefer_cif2 = CIF2[r.below(7)];
     static const int FD[] = { -1, 0, 1, 1, 2 }; o.max_frame_depth = FD[r.below(5)];
     o.fold_mod = (int) r.range(-1, 1); o.prefix_mod = (int) r.range(-1, 1);
-    static const char *const XS[] = { NULL, NULL, "\v", "\f", "\v\f\x1c" }; o.extra_ws = XS[r.below(5)]; o.extra_eol = XS[r.below(5)];
+    // (the documentation allows 7-bit ASCII characters and C1 controls in both sets: bytes >= 0x80 are legitimate here)
+    static const char *const XS[] = { NULL, NULL, "\v", "\f", "\v\f\x1c", "\x85", "\x1c\x80\x85\x9f" }; o.extra_ws = XS[r.below(7)]; o.extra_eol = XS[r.below(7)];
     static const char *const EN[] = { NULL, NULL, NULL, "ISO-8859-1", "UTF-16LE", "no-such-encoding", "UTF-8" }; o.default_encoding = EN[r.below(7)];
     o.force_default = r.chance(1, 5) ? 1 : 0;
     o.null_options = r.chance(1, 12);
